@@ -99,7 +99,7 @@ def cases(tier, rng):
         lines += enc_cases(rand_bytes(rng, one(range(128)), n // 2), full_mix)
     # full-ASCII spellings straddling power-of-two offsets of the spelled-out text (chunked / buffered builders):
     # a run of single-symbol characters, then a shifted character starting 5..0 symbols before the boundary
-    for P in ((256, 4096) if tier == "quick" else (64, 128, 256, 512, 1024, 2048, 4096, 8192, 16384, 65536)):
+    for P in ((256, 4096) if tier == "quick" else (64, 128, 256, 512, 1024, 2048, 4096, 8192, 16384)):
         for d in range(-5, 2):
             for lead, tail in ((b"A", b"aB"), (b"A", b"\x01Z"), (b"a", b"Bc")):
                 unit = 1 if lead == b"A" else 2
@@ -107,7 +107,7 @@ def cases(tier, rng):
                 if n > 0:
                     lines += enc_cases(lead * n + tail, ((rng.randrange(2), 1),))
     # very long basic texts (position counters / sums in narrow integers), with check characters
-    for n in ((255, 256, 257, 300, 1600, 5200) if tier == "quick" else (255, 256, 257, 300, 511, 512, 1561, 1600, 5200, 9000, 66000)):
+    for n in ((255, 256, 257, 300, 1600, 5200) if tier == "quick" else (255, 256, 257, 300, 511, 512, 1561, 1600, 5200, 9000, 20000)):
         for ch in (b"%", b"Z", b"1"):
             lines += enc_cases(ch * n, ((1, 0),))
         lines += enc_cases(rand_bytes(rng, one(BASIC43), n), ((1, 0),))
